@@ -142,11 +142,11 @@ fn apply_branch_patch(
 
     #[cfg(not(target_os = "macos"))]
     {
-        const BRANCH_RANGE: std::ops::RangeInclusive<isize> = -0x2000000..=0x1FFF_FFFF; // ±32MB
+        const BRANCH_RANGE: std::ops::RangeInclusive<isize> = -0x2000000..=0x1FF_FFFF; // imm26, in instructions (±128MB)
 
         let offset = (jit_addr as isize - func_addr as isize) / 4;
         if !BRANCH_RANGE.contains(&offset) {
-            panic!("JIT memory is out of branch range: offset = {offset}, expected ±32MB");
+            panic!("JIT memory is out of branch range: offset = {offset} instructions, expected ±128MB");
         }
 
         let branch_instr: u32 = 0x14000000 | ((offset as u32) & 0x03FF_FFFF);
